@@ -70,7 +70,7 @@ CHECKS['C10'] = dict(
 CHECKS['C19'] = dict(
    category='other',
    text='Mixed. Proved on the real code: the tag decorator marks and returns its argument; _run_tests hands unittest the tagged '
-        'loader exactly when tagged or check is set, with the listing flag. Bounded (labelled): _set_flags_from_argv against a '
+        'loader exactly when tagged or check is set, with the listing flag; TaggedTestLoader.getTestCaseNames offers all tests of a class that carries the tag and otherwise exactly its tagged methods (unittest name discovery abstract). Bounded (labelled): _set_flags_from_argv against a '
         'reference parser on every judgeable sequence of <= 3 (quick) / 4 (thorough) tokens from 20 spellings; tag selection and '
         'listing on generated test modules (tagged/untagged methods and classes, inheritance) x 22 argv forms run in-process with a side-effect log.',
    note='Trusted: unittest loader/main semantics. The argv scanner is a per-character string loop outside the SMT subset: bounded only. '
@@ -163,7 +163,8 @@ CHECKS['C09'] = dict(
    text='Mixed. Proved on the real base.py: to_preferred_order puts known kinds in the standard order followed by the rest sorted and '
         'returns a permutation of the keys; Constraint / MinConstraint / MaxConstraint.to_dict_value render dates as text (also inside the '
         '{value, precision} form) and leave every other value untouched, for every value type x precision x raw; get_date leaves '
-        'non-strings (null bounds) alone; initialize_from_dict builds one constraint per known kind with the re-parsed value (plain and {value, precision} forms) and ignores unknown kinds. '
+        'non-strings (null bounds) alone; initialize_from_dict builds one constraint per known kind with the re-parsed value (plain and {value, precision} forms) and ignores unknown kinds; '
+        'FieldConstraints.to_dict_value writes one entry per kind in the standard order, each rendered by the constraint itself with the same raw flag, and DatasetConstraints.to_dict writes the fields in stored order, creation metadata first. '
         'Exhaustive-domain: get_date inverts the text written for a date (all 10^6 microsecond values x 2 layouts, every calendar field value). Bounded (labelled): write -> load -> write gives identical constraint text and is idempotent, '
         'the text is valid UTF-8 JSON without trailing whitespace, unknown kinds and # keys change nothing, and path / dict / '
         're-serialised forms give the same verdicts on 5 frames - over all single-kind sets and seeded random sets.',
@@ -240,7 +241,8 @@ CHECKS['C11'] = dict(
 CHECKS['C12'] = dict(
    category='exploration',
    text='Proved on the real gentest.py: TestGenerator.test_name never returns a name that is already taken (the set of taken names is arbitrary) and records '
-        'what it returns, so no generated test method silently replaces another (one output going unchecked). Otherwise bounded (labelled): '
+        'what it returns, so no generated test method silently replaces another; write_script writes - to the script only - one check for stdout and one for stderr when requested, each with its own exclusions, and exactly one check per output file '
+        '(0..2 files, symbolic names) under the name test_name hands out, against the possibly re-mapped reference, as text with that file\'s exclusions and encoding or as binary (the text of each test is abstract). Otherwise bounded (labelled): '
         'for each command of the C11 family, after generation every single change of behaviour (stdout '
         'altered at the end / start / one character / truncated, stderr appended, exit status changed, output file content changed, '
         'output file deleted) is applied and the generated script re-run in a subprocess: it must fail, the failure must be reported by '
